@@ -52,6 +52,47 @@ def oracle(chk: Check, B: int, variables: Sequence[str], blocks: Sequence[Block]
     return out
 
 
+def assemble_blaming(chk: Check, make_arena, blocks: List[Block], tag: str, min_blocks: int = 3):
+    """assemble the arena.  If the assembler refuses it for lack of address space, drop the last third of the blocks
+    (the caller gives the rest an arena of its own); if it refuses it for any other reason, find the macro instances
+    that do not assemble on their own: each is a VIOLATION (a documented macro must assemble for its documented
+    operands), and the arena is built without them.  Returns (arena, blocks_used)."""
+    from flipjump.utils.exceptions import FlipJumpException
+    blocks = list(blocks)
+    refused: List[Block] = []
+    for _ in range(12):
+        arena = make_arena(blocks)
+        try:
+            arena.assemble()
+            arena.refused_blocks = refused
+            return arena, blocks
+        except FlipJumpException as e:
+            arena.close()
+            if "Not enough space" in str(e) or "verlap" in str(e):
+                if len(blocks) < min_blocks:
+                    raise
+                blocks = blocks[: len(blocks) * 2 // 3]
+                continue
+            bad = []
+            for b in blocks:
+                a1 = make_arena([b])
+                try:
+                    a1.assemble()
+                except FlipJumpException as e1:
+                    bad.append((b, e1))
+                finally:
+                    a1.close()
+            if not bad:
+                raise MachineryFailure(f"{tag}: the arena does not assemble although every block does on its own: {e}")
+            for b, e1 in bad:
+                text = b.fj.format(n=b.n, m=b.m, sh=b.sh, c=b.c, **{f"v{q}": x for q, x in enumerate(b.v)}, **{x: x for x in b.branches})
+                chk.violation({"macro": b.name, "what": "does-not-assemble"},
+                              f"{tag}: `{text}` does not assemble: {type(e1).__name__}: {str(e1)[:300]}", {"block": text, "error": str(e1)[:2000]})
+            refused += [x for x, _ in bad]
+            blocks = [b for b in blocks if all(b is not x for x, _ in bad)]
+    raise MachineryFailure(f"{tag}: could not build an arena")
+
+
 def bits_repr(bits) -> str:
     by = bytes(sum(b << i for i, b in enumerate(bits[k:k + 8])) for k in range(0, len(bits) - len(bits) % 8, 8))
     return f"{by!r}+{len(bits) % 8}bits"
